@@ -22,7 +22,9 @@ META = {
         'code set; exclude_external_codes flows from param into ExternalCodes. R4 presence/usage decision of '
         'element_if.is_valid and composite_if.is_valid evaluated over all combinations of (value present, usage, '
         'position in composite, composite usage) against the X12 rule (missing iff required; not-used iff present '
-        'and N). R5 data: min_len <= max_len for every data element, every element regex compiles.'),
+        'and N). R5 data: min_len <= max_len for every data element, every element regex compiles. R6 every delegated is_valid() call '
+        'of segment_if/composite_if.is_valid runs regardless of the result accumulated so far (no short-circuit, no `if valid` guard) '
+        'and is and-ed into the result.'),
     'not_decided': 'that the set of error codes is exactly the set implied for every value (needs the joint behaviour of all checks)',
     'trusted_base': ['callee summary of _is_valid_code (re-derived each run)', 'sa/astutil.ev finite evaluator'],
     'technique': 'static analysis: path search on the CFG (report/result pairing both directions), finite evaluation of comparison atoms, source-of-definition audit',
@@ -137,70 +139,107 @@ def r3_sources_and_atoms(ctx):
         ok = [norm(v) for v in src.get(nm, [])] == ["data_ele['%s']" % nm]
         yield Ob('map_if:element_if.is_valid %s comes from the data element definition' % nm, ok, ctx.floc(fn),
                  '' if ok else '%s is bound from %s' % (nm, [norm(v) for v in src.get(nm, [])]))
-    # numeric branch test and the stripped length
+    # numeric test: the If whose test, evaluated over the data types, is exactly "R or N*"
     num_if = None
-    for s in ast.walk(fn):
-        if isinstance(s, ast.If) and 'data_type' in norm(s.test) and any(isinstance(x, ast.Assign) and path_of(x.targets[0]) == 'elem_strip' for x in s.body):
-            num_if = s
+    for s_ in ast.walk(fn):
+        if isinstance(s_, ast.If) and A.free_paths(s_.test) == {'data_type'}:
+            try:
+                vals = [(dt, bool(A.ev(s_.test, {'data_type': dt}))) for dt in ('R', 'N', 'N0', 'N2', 'ID', 'AN', 'DT', 'TM', 'B', None)]
+            except (A.NotClosed, TypeError):
+                continue
+            if all(v == (dt is not None and (dt == 'R' or dt[0] == 'N')) for dt, v in vals):
+                num_if = s_
+    yield Ob('map_if:element_if.is_valid numeric length rule applies exactly to R and N types', num_if is not None, ctx.floc(fn),
+             '' if num_if is not None else 'no test that separates exactly the R and N* types from the others: sign and point would be (not) counted for the wrong types')
     if num_if is None:
-        raise AnalysisError('element_if.is_valid: numeric length branch not found')
-    bad = []
-    for dt in ('R', 'N', 'N0', 'N2', 'ID', 'AN', 'DT', 'TM', 'B', None):
-        try:
-            got = bool(A.ev(num_if.test, {'data_type': dt}))
-        except A.NotClosed as e:
-            raise AnalysisError('numeric branch test not closed: %s' % e)
-        want = dt is not None and (dt == 'R' or dt[0] == 'N')
-        if got != want:
-            bad.append((dt, got))
-    yield Ob('map_if:element_if.is_valid numeric length rule applies exactly to R and N types', not bad, ctx.floc(fn, num_if),
-             '' if not bad else 'type %r is %streated as numeric' % (bad[0][0], '' if bad[0][1] else 'not '))
-    strip = [x.value for x in num_if.body if isinstance(x, ast.Assign) and path_of(x.targets[0]) == 'elem_strip'][0]
-    removed = []
-    e = strip
-    while isinstance(e, ast.Call) and A.call_target(e)[1] == 'replace':
-        removed.append((A.const(e.args[0]), A.const(e.args[1])))
-        e = e.func.value
-    ok = sorted(removed) == [('-', ''), ('.', '')] and path_of(e) == 'elem_val'
-    yield Ob('map_if:element_if.is_valid sign and point are not counted (and nothing else is removed)', ok, ctx.floc(fn, num_if),
-             '' if ok else 'characters removed before measuring: %s from %s' % (removed, norm(e)))
-    # too short / too long atoms in both branches
-    atoms = []
+        return
+    # the stripped string: elem_val with exactly '-' and '.' removed
+    strips = [x for x in ast.walk(fn) if isinstance(x, ast.Assign) and isinstance(x.targets[0], ast.Name) and isinstance(x.value, ast.Call)
+              and A.call_target(x.value)[1] == 'replace']
+    strip_names = {}
+    for x in strips:
+        removed = []
+        e = x.value
+        while isinstance(e, ast.Call) and A.call_target(e)[1] == 'replace':
+            removed.append((A.const(e.args[0]), A.const(e.args[1])))
+            e = e.func.value
+        if path_of(e) == 'elem_val':
+            strip_names[x.targets[0].id] = (sorted(removed), x)
+    ok = len(strip_names) == 1 and list(strip_names.values())[0][0] == [('-', ''), ('.', '')]
+    yield Ob('map_if:element_if.is_valid sign and point are not counted (and nothing else is removed)', ok, ctx.floc(fn),
+             '' if ok else 'characters removed before measuring: %s' % {k: v[0] for k, v in strip_names.items()})
+    stripped = set(strip_names)
+
+    def cls_of(node):
+        """'num' if the node lies in the numeric branch, 'str' in the other branch, 'both' outside the test"""
+        p_ = A.parent(node)
+        child = node
+        while p_ is not None and p_ is not fn:
+            if p_ is num_if:
+                return 'num' if child in num_if.body else 'str'
+            child = p_
+            p_ = A.parent(p_)
+        return 'both'
+
+    def meaning(name, where):
+        """'stripped' / 'raw' / None for the string a name denotes at `where` ('num'|'str')"""
+        if name in stripped:
+            return 'stripped'
+        if name == 'elem_val':
+            return 'raw'
+        defs = [x for x in ast.walk(fn) if isinstance(x, ast.Assign) and path_of(x.targets[0]) == name]
+        ms = set()
+        for d in defs:
+            c = cls_of(d)
+            if c in (where, 'both') and isinstance(d.value, ast.Name):
+                ms.add(meaning(d.value.id, where) if d.value.id != name else None)
+        return ms.pop() if len(ms) == 1 else None
+    # too short / too long atoms
     def _len_atom(t):
-        """(len-call, bound name) of a comparison between len(<name>) and min_len/max_len in either orientation"""
         if not (isinstance(t, ast.Compare) and len(t.ops) == 1):
             return None
         for a, b in ((t.left, t.comparators[0]), (t.comparators[0], t.left)):
             if isinstance(a, ast.Call) and path_of(a.func) == 'len' and a.args and isinstance(a.args[0], ast.Name) and path_of(b) in ('min_len', 'max_len'):
                 return a, path_of(b)
         return None
-    for s in ast.walk(fn):
-        if isinstance(s, ast.If) and _len_atom(s.test) and any(_is_report(c) for c in A.calls_in(ast.Module(body=s.body, type_ignores=[]))):
+    atoms = []
+    for s_ in ast.walk(fn):
+        if isinstance(s_, ast.If) and _len_atom(s_.test) and any(_is_report(c) for c in A.calls_in(ast.Module(body=s_.body, type_ignores=[]))):
             code = None
-            for c in A.calls_in(ast.Module(body=s.body, type_ignores=[])):
+            for c in A.calls_in(ast.Module(body=s_.body, type_ignores=[])):
                 if _is_report(c):
                     code = A.const(c.args[2])
-            atoms.append((s, _len_atom(s.test)[1], code))
-    ok = len(atoms) == 4
-    yield Ob('map_if:element_if.is_valid has a min and a max length test in both branches', ok, ctx.floc(fn), '' if ok else '%d length tests' % len(atoms))
-    for s, bound, code in atoms:
-        arg = _len_atom(s.test)[0].args[0]
-        var = path_of(arg)
+            atoms.append((s_, _len_atom(s_.test)[1], code))
+    covered = set()
+    for s_, bound, code in atoms:
+        var = path_of(_len_atom(s_.test)[0].args[0])
         bad = []
         for n, b in itertools.product(range(0, 9), range(0, 9)):
-            got = bool(A.ev(s.test, {var: 'x' * n, bound: b}))
+            got = bool(A.ev(s_.test, {var: 'x' * n, bound: b}))
             want = n < b if bound == 'min_len' else n > b
             if got != want:
                 bad.append((n, b, got))
         wantcode = '4' if bound == 'min_len' else '5'
         ok = not bad and code == wantcode
-        yield Ob('map_if:element_if.is_valid `%s` -> code %s' % (norm(s.test), wantcode), ok, ctx.floc(fn, s),
+        yield Ob('map_if:element_if.is_valid `%s` -> code %s' % (norm(s_.test), wantcode), ok, ctx.floc(fn, s_),
                  '' if ok else ('length %d against %s=%d is %s' % (bad[0][0], bound, bad[0][1], 'reported' if bad[0][2] else 'not reported') if bad
                                 else 'report carries code %r' % code))
-        in_num = any(x is s for x in ast.walk(ast.Module(body=num_if.body, type_ignores=[])))
-        ok = (var == 'elem_strip') == in_num and var in ('elem_strip', 'elem_val')
-        yield Ob('map_if:element_if.is_valid `%s` measures the right string' % norm(s.test), ok, ctx.floc(fn, s),
-                 '' if ok else 'measures %s in the %s branch' % (var, 'numeric' if in_num else 'string'))
+        c = cls_of(s_)
+        probs = []
+        for where, want in (('num', 'stripped'), ('str', 'raw')):
+            if c in (where, 'both'):
+                covered.add((where, bound))
+                m = meaning(var, where)
+                if m != want:
+                    probs.append('for %s types it measures the %s string (%s)' % ('numeric' if where == 'num' else 'non-numeric',
+                                                                                 m or 'unknown', var))
+        yield Ob('map_if:element_if.is_valid `%s` measures the right string' % norm(s_.test), not probs, ctx.floc(fn, s_),
+                 '' if not probs else '; '.join(probs) + ': a value with hyphens/periods is measured %s' %
+                 ('too short' if any('stripped' in p_ for p_ in probs) else 'too long'))
+    need = {('num', 'min_len'), ('num', 'max_len'), ('str', 'min_len'), ('str', 'max_len')}
+    ok = covered == need
+    yield Ob('map_if:element_if.is_valid has a min and a max length test for numeric and for non-numeric types', ok, ctx.floc(fn),
+             '' if ok else 'no length test for %s' % sorted(need - covered))
     # external codes
     f2 = ctx.func('map_if', 'element_if._is_valid_code')
     calls = [c for c in A.calls_in(f2) if A.call_target(c)[1] == 'isValid']
@@ -324,6 +363,43 @@ def r4_presence_usage(ctx):
     yield Ob('map_if:segment_if.is_valid validates present elements and then the missing ones', ok, ctx.floc(sf), '' if ok else 'element loops changed')
 
 
+def r6_delegation_always_runs(ctx):
+    """every delegated is_valid() call of the three validators is evaluated regardless of the result accumulated so far:
+    a short-circuit (`valid and child.is_valid()`) or an `if valid:` guard drops the child's error reports"""
+    km = KeyMaker()
+    n = 0
+    for qual in ('segment_if.is_valid', 'composite_if.is_valid'):
+        fn = ctx.func('map_if', qual)
+        for c in A.calls_in(fn):
+            if A.call_target(c)[1] != 'is_valid':
+                continue
+            n += 1
+            bad = None
+            p_ = A.parent(c)
+            child = c
+            while p_ is not None and p_ is not fn:
+                if isinstance(p_, ast.BoolOp):
+                    idx = p_.values.index(child) if child in p_.values else -1
+                    if idx > 0 and any('valid' == path_of(x) for v in p_.values[:idx] for x in ast.walk(v)):
+                        bad = 'it is the right operand of `%s`: not evaluated once valid is already False' % norm(p_)
+                if isinstance(p_, ast.IfExp) and child is not p_.test and any(path_of(x) == 'valid' for x in ast.walk(p_.test)):
+                    bad = 'it is evaluated only when `%s`' % norm(p_.test)
+                if isinstance(p_, (ast.If, ast.While)) and child not in [p_.test] and any(path_of(x) == 'valid' for x in ast.walk(p_.test)) \
+                        and not any(x is c for x in ast.walk(p_.test)):
+                    bad = 'it is guarded by `%s`' % norm(p_.test)
+                child = p_
+                p_ = A.parent(p_)
+            yield Ob(km('map_if:%s %s always runs' % (qual, norm(c, 60))), bad is None, ctx.floc(fn, c),
+                     '' if bad is None else 'delegated check %s: the errors of this child are dropped when an earlier one failed' % bad)
+            # accumulation operator
+            st = A.enclosing(c, (ast.stmt,))
+            ok = isinstance(st, ast.AugAssign) and isinstance(st.op, ast.BitAnd) and path_of(st.target) == 'valid' and st.value is c
+            yield Ob(km('map_if:%s %s result is and-ed into valid' % (qual, norm(c, 60))), ok or bad is not None, ctx.floc(fn, c),
+                     '' if ok or bad is not None else 'result is not accumulated with `valid &= ...`: %s' % norm(st))
+    if n < 5:
+        raise AnalysisError('only %d delegated is_valid calls found' % n)
+
+
 def r5_data(ctx):
     ms = ctx.maps
     for num, d in sorted(ms.dataele.items()):
@@ -343,7 +419,8 @@ def r5_data(ctx):
 RULES = [
     Rule('C15.R1', 'reported => result False (path search from every report)', r1_reported_implies_false, floor=20),
     Rule('C15.R2', 'result False => reported (path search to every constant False)', r2_false_implies_reported, floor=15),
-    Rule('C15.R3', 'definition sources, numeric length rule, short/long atoms, code acceptance logic, exclusions', r3_sources_and_atoms, floor=20),
+    Rule('C15.R3', 'definition sources, numeric length rule, short/long atoms, code acceptance logic, exclusions', r3_sources_and_atoms, floor=16),
     Rule('C15.R4', 'presence/usage decisions over all combinations; delegation covers missing components', r4_presence_usage, floor=10),
     Rule('C15.R5', 'data element lengths sane; element regexes compile', r5_data, floor=300),
+    Rule('C15.R6', 'delegated is_valid calls always run and are and-ed into the result', r6_delegation_always_runs, floor=10),
 ]
